@@ -24,11 +24,13 @@ EXHAUSTIVE = {
 EXPLANATION = ('the writer text of the implementation is compared byte-for-byte with the model writer, the model reader '
                'is run on both texts and compared with the implementation reader; the property oracle is: read-back == '
                'original under the library == AND field-wise.  Theorems Fca.C07.* prove model read(write K) = K for all '
-               'admissible K (text level for cxt/csv, tree level for the json formats).')
+               'admissible K: text level for cxt/csv (any separator string), tree level for the json formats of formal '
+               'and many-valued contexts, formal and pattern concepts and their lattices (nested value texts under an '
+               'explicit loads(dumps j)=j hypothesis).')
 ASSUMPTIONS = ['object/attribute names pairwise distinct; tables with n,m >= 1',
-               'cxt names: non-empty, no newline; csv fields (names, word_true, word_false): no separator, no \\n, no \\r '
-               '(the csv reader only takes a path and text-mode files translate \\r), one-character separator, '
-               'word_true != word_false',
+               'cxt names: non-empty, no newline; csv fields (names, word_true, word_false): no character of the separator, '
+               'no \\n, no \\r (the csv reader only takes a path and text-mode files translate \\r); the separator is any '
+               'non-empty string without \\n/\\r; word_true != word_false',
                'SetPS values are sets of ints or sets of strings (mixed sets cannot be sorted by the writer)',
                'floats are compared through repr(); -0.0, nan are not generated',
                'lattices have >= 3 concepts (writer precondition); children_dict of the original lattice is the cover '
@@ -45,6 +47,7 @@ REQUESTS_NEED_IMPL = True
 POOL = ['a', ' b', 'c ', ' ', 'X.', ',;\t']
 CSV_SEPS = [',', ';', '\t', ' ']
 CSV_POOL_ALL = ['a', ' b', '', ',', ';', '\t', ' ', 'c ', 'x,y', 'X;']
+MULTI_SEPS = ['::', ' | ', '\t\t', '<=>', 'ab']
 WORDS = [('True', 'False'), ('1', '0'), ('X', ''), ('yes', 'no'), ('', '.')]
 RCHARS = 'abXY .,;\t-_é"\\/∅'
 PTYPES = ['IntervalPS', 'SetPS', 'AttributePS', 'IntervalNumpyPS']
@@ -207,6 +210,13 @@ def gen(tier, seed, boost=False):
             wt, wf = 'True', 'False'
         yield from _ctx_cases('random', rows, rand_names(rng, n, sep + '\n\r', True), rand_names(rng, m, sep + '\n\r', True),
                               ('csv',), csv_kw=dict(sep=sep, wt=wt, wf=wf))
+        # a multi-character separator: names and words share no character with it
+        msep = rng.choice(MULTI_SEPS)
+        mw = [w for w in WORDS if not any(ch in w[0] + w[1] for ch in msep)] or [('1', '0')]
+        mwt, mwf = rng.choice(mw)
+        forbid = msep + '\n\r'
+        yield from _ctx_cases('random-multisep', rows, rand_names(rng, n, forbid, True), rand_names(rng, m, forbid, True),
+                              ('csv',), csv_kw=dict(sep=msep, wt=mwt, wf=mwf), backends=(rng.choice(FMT_BACKENDS),))
         if i % 3 == 0:
             be = rng.choice(FMT_BACKENDS)
             o2, a2 = rand_names(rng, n, '\n'), rand_names(rng, m, '\n')
@@ -246,6 +256,9 @@ def gen(tier, seed, boost=False):
             if fmt == 'csv':
                 c.update(sep=sep, wt='True', wf='False')
             yield c
+        # a multi-character separator that does not occur in a name but overlaps with it ('a' + 'aa')
+        yield dict(stream='malformed', fmt='csv', be='BinTableBitarray', rows=rows, objs=['a'] + ['g%d' % i for i in range(1, n)],
+                   attrs=['x%d' % j for j in range(m)], sep='aa', wt='True', wf='False')
         # csv words that contain the separator / coincide
         sep = rng.choice(CSV_SEPS)
         yield dict(stream='malformed', fmt='csv', be='BinTableBitarray', rows=rows, objs=rand_names(rng, n, sep + '\n\r'),
